@@ -8,7 +8,7 @@
    [EndsD i dp dt]        : one more [next] answers Done at that cost. *)
 From Coq Require Import List ZArith Bool Arith.
 From YV Require Import Common.Corr Model.Queries Model.Streams
-  Lemmas.StreamsMono Lemmas.StreamsSteps Lemmas.StreamsPipeline Lemmas.StreamsPipeline2.
+  Lemmas.StreamsMono Lemmas.StreamsSteps Lemmas.StreamsPipeline Lemmas.StreamsPipeline2 Lemmas.StreamsEnds.
 Import ListNotations.
 
 (* fuel only bounds the search for an answer: an answer, once given, is final *)
@@ -139,6 +139,42 @@ Theorem C14_need_uniform : forall o xs k,
   end.
 Proof. exact xneed_uniform. Qed.
 
+(* C14_bound: the bound both ways, for every pipeline of select/where/skip/take/takeWhile/skipWhile/
+   enumerate/memorize over the endless source, every start value, every k and every state:
+   - when k results exist (within what the inspected prefix determines) they cost EXACTLY need_all
+     pulls and tks_all lambda applications (hence <= need + 1);
+   - when the prefix shows that the pipeline ends before k results (only take / takeWhile can end a
+     pipeline over an endless source), asking for k results costs EXACTLY the pulls that establish
+     the end, [pend_all], computed on lists: nothing for take (C14_end_take), the one failing element
+     for takeWhile (C14_end_take_while); the pipeline is then finished. *)
+Theorem C14_bound : forall ops k0 n k s,
+  let xs := src_prefix k0 n in
+  (k <= length (outs_all ops xs) ->
+     exists fuel s' i', run fuel s (build_all ops (Src k0)) k = (s', firstn k (outs_all ops xs), Running i') /\
+                        pulls s' = pulls s + need_all ops xs k /\ ticks s' = ticks s + tks_all ops xs k) /\
+  (forall ce te, pend_all ops xs (fun m => m) (fun _ => 0) None = Some (ce, te) -> length (outs_all ops xs) < k ->
+     exists fuel, run fuel s (build_all ops (Src k0)) k = (plus_st s ce te, outs_all ops xs, Finished)).
+Proof. exact pipeline_bound_total. Qed.
+
+Theorem C14_end_take : forall n xs cp ct e, n <= length xs -> oend (OTake n) xs cp ct e = Some (cp n, ct n).
+Proof. exact oend_take_cost. Qed.
+
+Theorem C14_end_take_while : forall p xs cp ct e, length (take_while_l (holds p) xs) < length xs ->
+  oend (OTakeWhile p) xs cp ct e =
+  Some (cp (S (length (take_while_l (holds p) xs))), ct (S (length (take_while_l (holds p) xs))) + S (length (take_while_l (holds p) xs))).
+Proof. exact oend_take_while_cost. Qed.
+
+(* consuming an ending pipeline completely *)
+Theorem C14_end_cost : forall ops k0 n ce te,
+  let xs := src_prefix k0 n in
+  pend_all ops xs (fun m => m) (fun _ => 0) None = Some (ce, te) ->
+  forall s, exists fuel, drain fuel s (build_all ops (Src k0)) = (plus_st s ce te, Ok (outs_all ops xs)).
+Proof. exact pipeline_end_cost. Qed.
+
+(* the cost-annotated behaviour of an iterator is unique: [next] is a function and fuel is monotone *)
+Theorem C14_deterministic : forall l i a b i1 a' b' i1', StepsD i l a b i1 -> StepsD i l a' b' i1' -> a = a' /\ b = b' /\ i1 = i1'.
+Proof. exact StepsD_det. Qed.
+
 (* state-free form *)
 Theorem C14_demand : forall ops k0 n k,
   let xs := src_prefix k0 n in
@@ -159,5 +195,15 @@ Example C14_example :
                 k_vals := ONone; k_pulls := 0; k_ticks := 0 |} = (mkst 6 8, OVal (VList false [VInt 4; VInt 7])).
 Proof. vm_compute. repeat split. Qed.
 
+(* sequence(0).where($ mod 2 = 0).takeWhile($ < 5): results 0 2 4, then 6 is pulled and fails: 7 pulls;
+   7 applications of the where predicate and 4 of the takeWhile predicate *)
+Example C14_example_end :
+  pend_all [OWhere (LModEq 2 0); OTakeWhile (LLt 5)] (src_prefix 0 12) (fun m => m) (fun _ => 0) None = Some (7, 11) /\
+  outs_all [OWhere (LModEq 2 0); OTakeWhile (LLt 5)] (src_prefix 0 12) = [VInt 0; VInt 2; VInt 4] /\
+  eval_kcase {| k_start := 0; k_stages := [SWhere (LModEq 2 0); STakeWhile (LLt 5)]; k_take := Some 8;
+                k_vals := ONone; k_pulls := 0; k_ticks := 0 |} = (mkst 7 11, OVal (VList false [VInt 0; VInt 2; VInt 4])).
+Proof. vm_compute. repeat split. Qed.
+
+Print Assumptions C14_bound.
 Print Assumptions C14_bound_partial.
 Print Assumptions C14_short_circuit.
